@@ -44,7 +44,7 @@ def parse(out):
     m = re.search(r"The depth of the complete state graph search is (\d+)", out)
     if m:
         res["depth"] = int(m.group(1))
-    for m in re.finditer(r"^<(\w+) line \d+, col \d+ to line \d+, col \d+ of module (\w+)>: (\d+):(\d+)", out, re.M):
+    for m in re.finditer(r"^<(\w+) line \d+, col \d+ to line \d+, col \d+ of module (\w+)(?: \([\d ]+\))?>: (\d+):(\d+)", out, re.M):
         a = res["actions"].setdefault(m.group(1), [0, 0])
         a[0] += int(m.group(3))
         a[1] += int(m.group(4))
